@@ -7,6 +7,7 @@
 //!  '6 h' clone (Clone objects and groups with Clone enabled)             '7 h' drop
 //!  '16 h' consuming call returning a plain value on a GROUP object (GFin::gfin)     '17 h' consuming call returning a wrapped child on a GROUP object (GFin::ginto_child)
 //!  '18 h' obtain an owned wrapped child through a &mut self method (Node::child_mut)     '19 h' the same on a GROUP object (GFin::gchild_mut)
+//!  '20 h' obtain an owned child wrapped as a GROUP object (#[wrap_with_group]; Clone enabled)
 //!  '15 -77' create a boxed Peek2 object around a ZERO-SIZED instance
 //!  '11 h' cast! the group to Clone (fails and destroys the group when Clone is not enabled)   '12 h' upcast a cast group back
 //! after the script every slot is dropped in order.
@@ -21,6 +22,10 @@ pub trait Node {
     #[wrap_with_obj(Peek2)]
     type Child: Peek2 + 'static;
     fn peek(&self) -> i64;
+    /// an owned child wrapped as a GROUP object (it receives a clone of the context like any owned child)
+    #[wrap_with_group(LifeGrp)]
+    type GKid: Peek2 + GFin + 'static;
+    fn gkid(&self) -> Self::GKid;
     fn child(&self) -> Self::Child;
     fn child_mut(&mut self) -> Self::Child;
     fn into_child(self) -> Self::Child;
@@ -62,6 +67,8 @@ impl Clone for Inst { fn clone(&self) -> Self { Inst::new(self.id + 1000) } }
 impl Peek2 for Inst { fn peek2(&self) -> i64 { self.id } }
 impl Node for Inst {
     type Child = Inst;
+    type GKid = Inst;
+    fn gkid(&self) -> Inst { Inst::new(self.id + 100) }
     fn peek(&self) -> i64 { self.id }
     fn child(&self) -> Inst { Inst::new(self.id + 100) }
     fn child_mut(&mut self) -> Inst { Inst::new(self.id + 100) }
@@ -166,6 +173,7 @@ pub fn run(_params: &[i64], ops: &Rows, mon: &mut Mon) -> Rows {
             12 => { match take(&mut pool, h) { H::GrpC(g) => res = Some(Some(H::Grp(g.upcast()))), other => { if h >= 0 && (h as usize) < pool.len() { pool[h as usize] = other; } } } }
             16 => { match take(&mut pool, h) { H::Grp(o) => { let _ = o.gfin(); res = Some(None); } H::GrpC(o) => { let _ = o.gfin(); res = Some(None); } other => { if h >= 0 && (h as usize) < pool.len() { pool[h as usize] = other; } } } }
             17 => { match take(&mut pool, h) { H::Grp(o) => res = Some(Some(H::Child(o.ginto_child()))), H::GrpC(o) => res = Some(Some(H::Child(o.ginto_child()))), other => { if h >= 0 && (h as usize) < pool.len() { pool[h as usize] = other; } } } }
+            20 => { if h >= 0 && (h as usize) < pool.len() { if let H::Node(o) = &pool[h as usize] { let g = o.gkid(); res = Some(Some(H::Grp(g))); } } }
             18 => { if h >= 0 && (h as usize) < pool.len() { if let H::Node(o) = &mut pool[h as usize] { let ch = o.child_mut(); res = Some(Some(H::Child(ch))); } } }
             19 => { if h >= 0 && (h as usize) < pool.len() { let ch = match &mut pool[h as usize] { H::Grp(o) => Some(o.gchild_mut()), H::GrpC(o) => Some(o.gchild_mut()), _ => None }; if let Some(ch) = ch { res = Some(Some(H::Child(ch))); } } }
             13 | 14 => {
